@@ -232,6 +232,7 @@ func cmdCheck(args []string) int {
 
 	violations := 0
 	broken := 0
+	var undecided []string
 	knownHits := 0
 	total, discharged, covers := 0, 0, 0
 	var perObl []map[string]any
@@ -287,8 +288,11 @@ func cmdCheck(args []string) int {
 				perObl = append(perObl, entry)
 				continue
 			case "error":
-				fmt.Printf("BROKEN property=%s obligation=%s: %s\n", id, o.Name, o.Detail)
-				broken++
+				// a contract clause that no longer binds to the code (renamed local,
+				// removed call): the obligation is undecided, not violated
+				fmt.Printf("UNDECIDED property=%s obligation=%s: %s\n", id, o.Name, o.Detail)
+				undecided = append(undecided, o.Name)
+				entry["status"] = "undecided"
 				perObl = append(perObl, entry)
 				continue
 			}
@@ -308,9 +312,9 @@ func cmdCheck(args []string) int {
 				// the contract no longer binds to the code of this function (e.g. a
 				// local named in a loop invariant was renamed): its undischarged
 				// obligations are inconclusive, not violations
-				fmt.Printf("BROKEN property=%s obligation=%s: undecided because the contract of %s does not evaluate against the current code\n", id, o.Name, r.Func)
-				broken++
-				entry["status"] = "inconclusive"
+				fmt.Printf("UNDECIDED property=%s obligation=%s: the contract of %s does not evaluate against the current code\n", id, o.Name, r.Func)
+				undecided = append(undecided, o.Name)
+				entry["status"] = "undecided"
 				perObl = append(perObl, entry)
 				continue
 			}
@@ -417,6 +421,48 @@ func cmdCheck(args []string) int {
 		}
 		boundedOut = append(boundedOut, be)
 	}
+	// Obligations the verifier could not decide because a contract clause does not
+	// bind to the current code are decided by the property's executable oracles
+	// (replay tests against the real code; the bounded stand-ins above have run
+	// already): a failing oracle is a violation with a concrete failing input,
+	// otherwise the obligations stay undecided and are reported as such.
+	var fallbackOut []map[string]any
+	if len(undecided) > 0 && violations == 0 {
+		ran := map[string]bool{}
+		for _, bs := range cfg.Bounded {
+			ran[bs.File+" "+bs.Run] = true
+		}
+		for i := range cfg.Replay {
+			rp := &cfg.Replay[i]
+			if ran[rp.File+" "+rp.Run] {
+				continue
+			}
+			ran[rp.File+" "+rp.Run] = true
+			pass, out, err := runOverlayTest(rp.Pkg, rp.File, nil, "^"+rp.Run+"$", 300, nil, "")
+			fe := map[string]any{"oracle": rp.File + " " + rp.Run}
+			switch {
+			case err != nil:
+				fe["status"] = "could not run: " + err.Error()
+			case pass:
+				fe["status"] = "passed"
+			default:
+				if kf := matchKnown(known, id, rp.Match, out); kf != nil {
+					fe["status"] = "known-finding"
+					break
+				}
+				fe["status"] = "failed"
+				os.MkdirAll(replayDir, 0o755)
+				rf := filepath.Join(replayDir, "fallback_"+sanitize(rp.Run)+".json")
+				jb, _ := json.MarshalIndent(map[string]any{"property": id, "undecided_obligations": undecided,
+					"decided_by": "executable oracle run because the obligations above could not be evaluated against the current code",
+					"replay_test": rp, "replay_output": lastBytes(out, 8000), "replayed": "counterexample reproduced on the real code"}, "", " ")
+				os.WriteFile(rf, jb, 0o644)
+				fmt.Printf("VIOLATION property=%s replay=%s obligation=%s (undecided; decided by oracle %s)\n", id, rf, undecided[0], rp.Run)
+				violations++
+			}
+			fallbackOut = append(fallbackOut, fe)
+		}
+	}
 	if total == 0 && broken == 0 {
 		fmt.Printf("BROKEN property=%s: no obligations generated\n", id)
 		broken++
@@ -456,6 +502,11 @@ func cmdCheck(args []string) int {
 		"contract_files":           relFiles(l.db.files),
 		"arith":                    arithOf(reps),
 	}
+	if len(undecided) > 0 {
+		cov["undecided_obligations"] = undecided
+		cov["undecided_fallback_oracles"] = fallbackOut
+		cov["explanation"] = "some contract clauses do not bind to the current code; their obligations are not counted in obligations/discharged and were handed to the executable oracles listed under undecided_fallback_oracles"
+	}
 	if len(boundedOut) > 0 {
 		cov["bounded"] = boundedOut
 		cov["bounded_evaluations"] = bEvals
@@ -465,8 +516,8 @@ func cmdCheck(args []string) int {
 		WallS: time.Since(t0).Seconds(), Violations: violations}
 	jb, _ := json.MarshalIndent(ev, "", " ")
 	os.WriteFile(evFile, jb, 0o644)
-	fmt.Printf("property=%s tier=%s functions=%d obligations=%d discharged=%d known-findings=%d violations=%d broken=%d wall=%.1fs\n",
-		id, *tier, len(funcs), total, discharged, knownHits, violations, broken, time.Since(t0).Seconds())
+	fmt.Printf("property=%s tier=%s functions=%d obligations=%d discharged=%d known-findings=%d violations=%d undecided=%d broken=%d wall=%.1fs\n",
+		id, *tier, len(funcs), total, discharged, knownHits, violations, len(undecided), broken, time.Since(t0).Seconds())
 	if violations > 0 {
 		return 1
 	}
